@@ -362,6 +362,19 @@ func (c *c08) builder1(spec c08Msg, sig *ssa.Global, fn *ssa.Function, name stri
 	fi := c.w.Info(fn)
 	z.LoadRep = fi.LoadRep
 	c.loopGuards = append(st.LoopGuards(), st.CallGuards()...)
+	if os.Getenv("C08_DEBUG") != "" {
+		for _, p := range pieces {
+			fmt.Fprintln(os.Stderr, "piece", p.String(), "why:", p.Why)
+		}
+	}
+	// Observed layout defects of a buffer all of whose writes were read: two writes
+	// cover the same bytes, or the writes leave a hole / end before the buffer does.
+	for _, p := range pieces {
+		if p.Kind == "bytes" && (strings.Contains(p.Why, "do not tile the buffer") || strings.Contains(p.Why, "do not fill the buffer") || strings.Contains(p.Why, "overlapping writes") || strings.Contains(p.Why, "a copy truncates its source")) && p.Width < 0 {
+			r.Fail("R1.layout", name, c.ipos(p.At), "the message buffer is written inconsistently: "+p.Why+" (every write to it was read; fields overlap or leave a hole)")
+			return nil
+		}
+	}
 	placed, total, why := c.place(z, pieces)
 	if why != "" {
 		// Observed, not unreadable: within the fixed part a join of alternatives of
@@ -440,6 +453,7 @@ func (c *c08) builder1(spec c08Msg, sig *ssa.Global, fn *ssa.Function, name stri
 		return nil
 	}
 
+	var deferred []func(decided bool)
 	at := func(rule, what string, off, width int) *codec.Piece {
 		construct := name + ": " + what
 		p := fixed[int64(off)]
@@ -458,7 +472,23 @@ func (c *c08) builder1(spec c08Msg, sig *ssa.Global, fn *ssa.Function, name stri
 				c.notDecided(rule, construct, c.ipos(q.At), fmt.Sprintf("offset %d lies inside %s, whose content cannot be read off", off, q.String()))
 				return nil
 			}
-			r.Fail(rule, construct, c.pos(fn.Pos()), fmt.Sprintf("no field starts at offset %d of the fixed header (MS-NLMP places %s there); header layout: %s", off, what, codec.RenderPieces(pieces)))
+			msg := fmt.Sprintf("no field starts at offset %d of the fixed header (MS-NLMP places %s there); header layout: %s", off, what, codec.RenderPieces(pieces))
+			if int64(off) >= fixedEnd && len(payload) > 0 {
+				// The offset lies in or behind the first variable-length run. If that run
+				// is a payload some descriptor designates, the fixed part really ends
+				// early; if it is a run of unknown content (the message accumulated in an
+				// object that was not followed), the header is hidden inside it. Decided
+				// once the descriptors have been matched.
+				deferred = append(deferred, func(decided bool) {
+					if decided {
+						r.Fail(rule, construct, c.pos(fn.Pos()), msg)
+					} else {
+						c.notDecided(rule, construct, c.pos(fn.Pos()), fmt.Sprintf("offset %d (%s) lies in or behind the variable-length run %s, which no descriptor designates and whose content is not read off", off, what, payload[0].p.String()))
+					}
+				})
+				return nil
+			}
+			r.Fail(rule, construct, c.pos(fn.Pos()), msg)
 			return nil
 		}
 		if p.Width != width {
@@ -571,6 +601,15 @@ func (c *c08) builder1(spec c08Msg, sig *ssa.Global, fn *ssa.Function, name stri
 			first = k
 		}
 		switch {
+		case (fixedEnd != int64(spec.header) || first != int64(spec.header)) && fixedEnd < int64(spec.header) && len(payload) > 0:
+			msg := fmt.Sprintf("the fixed fields end at %d and the payload starts at %d; MS-NLMP fixed part is %d bytes", fixedEnd, first, spec.header)
+			deferred = append(deferred, func(decided bool) {
+				if decided {
+					r.Fail("R1.header-size", construct, c.pos(fn.Pos()), msg)
+				} else {
+					c.notDecided("R1.header-size", construct, c.pos(fn.Pos()), fmt.Sprintf("the constant-offset part read off ends at %d, followed by the run %s, which no descriptor designates and whose content is not read off", fixedEnd, payload[0].p.String()))
+				}
+			})
 		case fixedEnd != int64(spec.header) || first != int64(spec.header):
 			r.Fail("R1.header-size", construct, c.pos(fn.Pos()), fmt.Sprintf("the fixed fields end at %d and the payload starts at %d; MS-NLMP fixed part is %d bytes", fixedEnd, first, spec.header))
 		default:
@@ -758,6 +797,14 @@ func (c *c08) builder1(spec c08Msg, sig *ssa.Global, fn *ssa.Function, name stri
 				bad = fmt.Sprintf("the run appended at %s is designated by %d descriptors", z.String(payload[i].off), n)
 				break
 			}
+		}
+		// fields looked for in or behind the first variable-length run
+		hidden := len(deferred) > 0 && len(cover) > 0 && cover[0] == 0
+		for _, f := range deferred {
+			f(!hidden)
+		}
+		if hidden {
+			offUndecided = true
 		}
 		// a descriptor whose payload is not found among the runs AND a run that no
 		// descriptor designates: most likely the same bytes under two identities
@@ -981,6 +1028,12 @@ func (c *c08) narrowing(name, desc string, fn *ssa.Function, z *codec.Sym, piece
 			// the payload, its length or a table holding it is handed to a function or
 			// closure that can reject it (returns bool / error or panics) and that is
 			// not one of the validating helpers read above.
+			if op := c08OpaqueTerm(z, z.OfIn(conv.X, fr)); op != "" {
+				// the quantity itself was not resolved (read back from memory, a helper
+				// result, a loop-carried value): nothing is known about its bound
+				c.notDecided("R2.desc-narrow", construct, c.ipos(conv), fmt.Sprintf("%s.%s = uint%d(%s): %s is not resolved to lengths of payloads, so no bound could be looked for", desc, what, bits, q, op))
+				return
+			}
 			if why := c.guardEscapes(z, conv, fr); why != "" {
 				c.notDecided("R2.desc-narrow", construct, c.ipos(conv), fmt.Sprintf("%s.%s = uint%d(%s): no bound was proved, but %s, which may establish it", desc, what, bits, q, why))
 				return
@@ -1186,6 +1239,58 @@ func c08HasNarrowing(v ssa.Value, fr *codec.Frame, d int) bool {
 	case *ssa.Phi, *ssa.Parameter, *ssa.UnOp, *ssa.Field, *ssa.Index:
 		if e, ef := codec.Resolve(v, fr); e != v {
 			return c08HasNarrowing(e, ef, d+1)
+		}
+		// an element of an integer table (evaluated per iteration by codec/cells.go):
+		// none of the values stored into the table may narrow
+		if u, ok := v.(*ssa.UnOp); ok && u.Op == token.MUL {
+			if ia, ok := u.X.(*ssa.IndexAddr); ok && ia.X.Referrers() != nil {
+				for _, r := range *ia.X.Referrers() {
+					ia2, ok := r.(*ssa.IndexAddr)
+					if !ok || ia2.Referrers() == nil {
+						continue
+					}
+					for _, rr := range *ia2.Referrers() {
+						if st, ok := rr.(*ssa.Store); ok && st.Addr == ssa.Value(ia2) && c08ExprNarrows(st.Val, map[ssa.Value]bool{}, 0) {
+							return true
+						}
+					}
+				}
+			}
+		}
+	}
+	return false
+}
+
+// c08ExprNarrows: the integer expression v (through + − and every φ edge)
+// contains a narrowing or sign-changing conversion.
+func c08ExprNarrows(v ssa.Value, seen map[ssa.Value]bool, d int) bool {
+	if seen[v] {
+		return false
+	}
+	seen[v] = true
+	if d > 64 {
+		return true
+	}
+	switch x := v.(type) {
+	case *ssa.Convert:
+		sb, ok1 := x.X.Type().Underlying().(*types.Basic)
+		db, ok2 := x.Type().Underlying().(*types.Basic)
+		if !ok1 || !ok2 || sb.Info()&types.IsInteger == 0 || db.Info()&types.IsInteger == 0 {
+			return true
+		}
+		if c08Bits(db) < c08Bits(sb) || (sb.Info()&types.IsUnsigned == 0) != (db.Info()&types.IsUnsigned == 0) && c08Bits(db) <= c08Bits(sb) {
+			return true
+		}
+		return c08ExprNarrows(x.X, seen, d+1)
+	case *ssa.ChangeType:
+		return c08ExprNarrows(x.X, seen, d+1)
+	case *ssa.BinOp:
+		return c08ExprNarrows(x.X, seen, d+1) || c08ExprNarrows(x.Y, seen, d+1)
+	case *ssa.Phi:
+		for _, e := range x.Edges {
+			if c08ExprNarrows(e, seen, d+1) {
+				return true
+			}
 		}
 	}
 	return false
